@@ -93,6 +93,7 @@ class Pairing:
         self.may = may_throw
         self.findings = []
         self.resources = 0
+        self.scoped = 0  # resources allocated directly into a smart pointer (nothing to pair)
         self.exits = 0
 
     def run(self):
@@ -191,6 +192,16 @@ class Pairing:
                 if v and v[1] in open_:
                     open_ = dict(open_)
                     del open_[v[1]]
+                elif alloc_in(x['args'][0]) is not None:
+                    self.scoped += 1  # allocated straight into its owner
+            elif k == 'CXXMemberCallExpr' and (x.get('callee') or '').startswith('std::unique_ptr<') and (x.get('callee') or '').endswith('::reset') and x.get('args'):
+                # owner.reset(p): the smart pointer takes the resource over
+                v = var_of(x['args'][0])
+                if v and v[1] in open_:
+                    open_ = dict(open_)
+                    del open_[v[1]]
+                elif alloc_in(x['args'][0]) is not None:
+                    self.scoped += 1
             elif k == 'CXXThrowExpr':
                 self.exit('throw', x, open_)
             elif k in ('CallExpr', 'CXXMemberCallExpr', 'CXXOperatorCallExpr', 'CXXConstructExpr', 'CXXTemporaryObjectExpr'):
@@ -205,7 +216,7 @@ def analyse_units(db, unit_names):
     """returns (findings, stats); finding = (function sig, variable, allocator, alloc site, exit kind, exit loc)"""
     may = compute_may_throw(db, unit_names)
     out = []
-    stats = {'functions': 0, 'resources': 0, 'exits': 0, 'names': []}
+    stats = {'functions': 0, 'resources': 0, 'scoped': 0, 'exits': 0, 'names': []}
     seen = set()
     for un in unit_names:
         unit = db.unit(un)
@@ -221,6 +232,7 @@ def analyse_units(db, unit_names):
             fs = p.run()
             stats['functions'] += 1
             stats['resources'] += p.resources
+            stats['scoped'] += p.scoped
             stats['exits'] += p.exits
             stats['names'].append(key)
             for (name, callee, site, what, where) in fs:
